@@ -126,8 +126,21 @@ type Plan struct {
 	// fault position class, ...). Informational; used for coverage signatures.
 	Tags map[string]string `json:"tags,omitempty"`
 
+	// History, if set, says that the violation depends on what the worker process
+	// had executed before this plan: replay re-runs that worker's plans 0..Run first.
+	History *History `json:"history,omitempty"`
+
 	Violation *Violation `json:"violation,omitempty"`
 	EventLog  []string   `json:"event_log,omitempty"`
+}
+
+// History identifies the position of a plan in a worker's deterministic sequence.
+type History struct {
+	Seed    uint64 `json:"seed"`
+	Tier    string `json:"tier"`
+	Worker  int    `json:"worker"`
+	Workers uint64 `json:"workers"`
+	Index   int64  `json:"index"` // number of plans the worker had generated before this one
 }
 
 // Clone deep-copies a plan through JSON.
